@@ -138,7 +138,13 @@ func PeekRune(keys *Keys) (char []byte, partial bool) {
 		return nil, false
 	}
 
+	// Only wait for the rest of a character when a read is what comes next:
+	// with keys fed by a macro or a command pending, waiting would never end.
 	if !utf8.FullRune(keys.buf) {
+		if len(keys.macroKeys) > 0 {
+			return nil, false
+		}
+
 		return keys.buf, true
 	}
 
